@@ -109,7 +109,13 @@ func (d *Decoder) Decode(bts []byte) (interface{}, error) {
 }
 
 //ReadObject read new object from reader
-func (d *Decoder) ReadObject() (interface{}, error) {
+func (d *Decoder) ReadObject() (obj interface{}, err error) {
+	// malformed input must yield an error, never a panic
+	defer func() {
+		if r := recover(); r != nil {
+			obj, err = nil, newCodecError("ReadObject", "invalid data: %v", r)
+		}
+	}()
 	return EnsureInterface(d.ReadData())
 }
 
